@@ -169,6 +169,8 @@ type Engine struct {
 	putType       map[string]*boxed
 	nGlobals      int
 	usedLemmas    map[string]bool
+	loopMismatch  []string // contract loop ordinals the function (or an inlined contracted callee) no longer has
+	inlinedLoop   string   // a named callee without contract that was inlined and has a loop without invariant
 	ordinals      map[string]int
 	pureMode      bool
 	curProp       string
